@@ -161,7 +161,7 @@ func DecodeAndValidateClaimsFromCBOR(buf []byte) (IClaims, error) {
 // is performed to confirm that the decoded claims actually conform to the
 // stated profile.
 func DecodeClaimsFromCBOR(buf []byte) (IClaims, error) {
-	selector := struct {
+	selector := &struct {
 		// note: code point 265 is defined as the eat_profile claim in
 		// EAT(https://datatracker.ietf.org/doc/draft-ietf-rats-eat/).
 		// This is not specific to PSA, and so is not something that we
@@ -185,6 +185,12 @@ func DecodeClaimsFromCBOR(buf []byte) (IClaims, error) {
 	err := dm.Unmarshal(buf, &selector)
 	if err != nil {
 		return nil, err
+	}
+
+	// CBOR null / undefined "decode" into any Go value without an error
+	// (they reset the pointer), but they are not a claims map
+	if selector == nil {
+		return nil, errors.New("CBOR claims-set must be a map, found null or undefined")
 	}
 
 	entry, ok := profilesRegister[selector.Profile]
